@@ -336,8 +336,8 @@ def _t_verb(line, arg=None):
     return re.sub(r'\bprefs\.verbosity\b', 'ol_verbosity(prefs)', line)
 
 
-RREF_RE = re.compile(r'^(\s*)for &(\w+) in &([\w:]+) \{\s*$')
-RREF_OUT = re.compile(r'^for verif_r_(\w+) in 0\.\.([\w:]+)\.len\(\)$')
+RREF_RE = re.compile(r'^(\s*)for &(\w+) in (&?)([\w:]+) \{\s*$')
+RREF_OUT = re.compile(r'^for verif_(r|s)_(\w+) in 0\.\.([\w:]+)\.len\(\)$')
 
 
 def _t_rref(line, arg=None):
@@ -346,8 +346,28 @@ def _t_rref(line, arg=None):
     m = RREF_RE.match(line)
     if not m:
         return line
-    ind, x, v = m.groups()
-    return '%sfor verif_r_%s in 0..%s.len()' % (ind, x, v)
+    ind, x, amp, v = m.groups()
+    return '%sfor verif_%s_%s in 0..%s.len()' % (ind, 'r' if amp else 's', x, v)
+
+
+RTUP_RE = re.compile(r'^(\s*)for &\((\w+), (\w+)\) in (\w+) \{\s*$')
+RTUP_OUT = re.compile(r'^let mut verif_it_(\w+)_(\w+) = 0; while verif_it_\w+ < (\w+)\.len\(\)$')
+
+
+def _t_rtup(line, arg=None):
+    """Rtup: `for &(A, B) in V {` (body may `continue`) -> `let mut verif_it_A_B = 0; while verif_it_A_B < V.len()`; the
+    header clauses follow, then `{` and the prologue `let (A, B) = V[verif_it_A_B]; verif_it_A_B += 1;`"""
+    m = RTUP_RE.match(line)
+    if not m:
+        return line
+    ind, a, b, v = m.groups()
+    return '%slet mut verif_it_%s_%s = 0; while verif_it_%s_%s < %s.len()' % (ind, a, b, a, b, v)
+
+
+def _t_zn(line, arg=None):
+    """Rzn: `zn.n` -> `ol_zn_n(zn)` (public field of a struct whose other fields are private: opaque to Verus outside
+    its module; outlined accessor)"""
+    return re.sub(r'\bzn\.n\b', 'ol_zn_n(zn)', line)
 
 
 def _t_try(line, arg=None):
@@ -356,11 +376,11 @@ def _t_try(line, arg=None):
     return re.sub(r'\b(\w+)\.try_into\(\) == Ok\(([^()]+)\)', r'ol_uint_eq_u64(\1, \2)', line)
 
 
-TRANSFORMERS = [('Rmul', _t_mulassign), ('Rconst', _t_one_const), ('Rref', _t_rref), ('Rtry', _t_try), ('Rverb', _t_verb), ('Rvec', _t_rvec), ('Rone', _t_one_shl), ('Rdiv', _t_opassign), ('R10', _t_r10), ('Rit', _t_forit), ('Rfor', _t_forname), ('R8', _t_r8), ('Rsort', _t_sort), ('R7', _t_r7), ('R1', _t_r1), ('R1u', _t_unsafe), ('ret', _t_ret), ('brace', _t_brace)]
+TRANSFORMERS = [('Rzn', _t_zn), ('Rtup', _t_rtup), ('Rmul', _t_mulassign), ('Rconst', _t_one_const), ('Rref', _t_rref), ('Rtry', _t_try), ('Rverb', _t_verb), ('Rvec', _t_rvec), ('Rone', _t_one_shl), ('Rdiv', _t_opassign), ('R10', _t_r10), ('Rit', _t_forit), ('Rfor', _t_forname), ('R8', _t_r8), ('Rsort', _t_sort), ('R7', _t_r7), ('R1', _t_r1), ('R1u', _t_unsafe), ('ret', _t_ret), ('brace', _t_brace)]
 
 
 # line-local normalisations that need no accompanying ghost text: applied to current lines that have no pinned counterpart
-FREE = ('R1', 'R1u', 'Rconst', 'Rmul', 'Rdiv', 'Rverb', 'Rtry', 'Rone', 'Rsort', 'R8')
+FREE = ('R1', 'R1u', 'Rconst', 'Rmul', 'Rdiv', 'Rverb', 'Rtry', 'Rone', 'Rsort', 'R8', 'Rzn')
 
 
 def free_normalise(line):
@@ -423,6 +443,7 @@ def key(line):
         return '<<brace>>'
     s = re.sub(r'ol_uint_one_shl\(([^()]*)\)', r'Uint::ONE << (\1)', s)
     s = s.replace('ol_verbosity(prefs)', 'prefs.verbosity')
+    s = s.replace('ol_zn_n(zn)', 'zn.n')
     s = re.sub(r'ol_uint_eq_u64\((\w+), ([^()]+)\)', r'\1.try_into() == Ok(\2)', s)
     md = re.match(r'^(\w+) = (\w+) / (.+);$', s)
     if md and md.group(1) == md.group(2):
@@ -453,7 +474,10 @@ def key(line):
         return 'for %s in %s' % (m.group(1), m.group(2))
     m = RREF_OUT.match(s)
     if m:
-        return 'for &%s in &%s' % (m.group(1), m.group(2))
+        return 'for &%s in %s%s' % (m.group(2), '&' if m.group(1) == 'r' else '', m.group(3))
+    m = RTUP_OUT.match(s)
+    if m:
+        return 'for &(%s, %s) in %s' % (m.group(1), m.group(2), m.group(3))
     s = _sub_get_unchecked(s)
     s = re.sub(r'\bunsafe\s*\{', '{', s)
     if s == '{':
@@ -622,7 +646,7 @@ class Script:
                         if all(norm(x) == '' or norm(x).startswith('//') for x in P[bi1:bi2]) and not js:
                             continue
                         raise Undecided("a rewritten block changed near %r" % P[pi].strip())
-                    if pi in self.transform and ('brace' in self.transform[pi][0] or 'R7' in self.transform[pi][0] or 'Rvec' in self.transform[pi][0] or 'Rref' in self.transform[pi][0]):
+                    if pi in self.transform and ('brace' in self.transform[pi][0] or 'R7' in self.transform[pi][0] or 'Rvec' in self.transform[pi][0] or 'Rref' in self.transform[pi][0] or 'Rtup' in self.transform[pi][0]):
                         # the annotated loop / fn header no longer exists in this form: its clauses are orphaned.
                         # They are dropped (a loop that is gone has no invariant); what the changed code must
                         # still satisfy is decided by the remaining obligations.
